@@ -44,7 +44,7 @@ def bounded(check):
     except ValueError:
         info = {"error": (p.stderr or p.stdout)[-400:]}
     out = dict(name="same original -> same substitute; different IPv4 / host names -> different substitutes; the report pairs what the output shows",
-               level="bounded", bound="every sequence of <= %d lines over 48-68 line shapes (1-2 of 8 originals per line), two specs through one Cleaner" % n,
+               level="bounded", bound="every sequence of <= %d lines over 48-68 line shapes (1-2 of 8 originals per line), two specs through one Cleaner; the RHSM facts mapping for 2 spellings of one MAC / IPv6 address, IPv4 and host names" % n,
                result=info, violation=(p.returncode == 1), error=(p.returncode not in (0, 1)))
     if p.returncode == 1:
         os.makedirs(os.path.join(here, "replays"), exist_ok=True)
